@@ -61,7 +61,8 @@ def gen_field(rng):
     return {"n": rng.choice([32, 64, 100, 257, 512, 1000, 2048, 4096]),
             "field": rng.choice(["cw", "cw", "tone", "random", "nrz"]),
             "npol": rng.choice([1, 2]), "innoise": rng.choice([None, "complex", "complex", "real"]),
-            "P": 10 ** rng.uniform(-5, -1), "nlevel": 10 ** rng.uniform(-6, -0.5), "inseed": rng.getrandbits(32),
+            "P": 10 ** rng.uniform(-5, -1), "inseed": rng.getrandbits(32),
+            "nlevel": 10 ** (rng.uniform(-6, -4) if rng.random() < 0.3 else rng.uniform(-3.5, -0.5)),
             "yzero": rng.random() < 0.15}
 
 
